@@ -235,6 +235,17 @@ pub fn gen_inputs(cfg: &RunCfg) -> Vec<Vec<M>> {
                     md.defs.push(D { text: format!("{vn} {key} ::= {v}"), name: vn, kind: Kind::Value, shape: "vCho".into(), refs: vec![key.clone()], fault: None });
                 }
             }
+            // module-qualified references to a type of the first module (alias, member, list element, CHOICE payload),
+            // whether or not an IMPORTS clause names it: the path printed for them is no option's business
+            if m > 0 {
+                let target = format!("Mod{set}x0.AllDef{set}x0e");
+                let qa = format!("QualA{set}x{m}e");
+                md.defs.push(D { text: format!("{qa} ::= {target}"), name: qa, kind: Kind::Type, shape: "Qual".into(), refs: vec![], fault: None });
+                let qs = format!("QualS{set}x{m}e");
+                md.defs.push(D { text: format!("{qs} ::= SEQUENCE {{ one {target}, many SEQUENCE OF {target}, opt {target} OPTIONAL }}"), name: qs, kind: Kind::Type, shape: "Qual".into(), refs: vec![], fault: None });
+                let qc = format!("QualC{set}x{m}e");
+                md.defs.push(D { text: format!("{qc} ::= CHOICE {{ far {target}, near BOOLEAN }}"), name: qc, kind: Kind::Type, shape: "Qual".into(), refs: vec![], fault: None });
+            }
             mods.push(md);
         }
         link_imports(&mut rng, &mut mods, 2, &format!("{set}"));
